@@ -45,6 +45,7 @@ class Unit:
         self.attach = None
         self.harnesses = []  # dicts: name, tier, timeout, bounded
         self.canaries = []
+        self.needs = []
         for line in open(path):
             if not line.startswith("//"):
                 break
@@ -64,6 +65,9 @@ class Unit:
             m = re.match(r"// @canary (\S+)", line)
             if m:
                 self.canaries.append(m.group(1))
+            m = re.match(r"// @needs (\S+)", line)
+            if m:
+                self.needs += m.group(1).split(",")
         if not self.name or not self.attach:
             raise RuntimeError("unit file %s lacks a @unit header" % path)
 
@@ -81,7 +85,17 @@ class Unit:
 
 
 def load_units(names):
-    return [Unit(os.path.join(VERIF, "kani", n + ".rs")) for n in names]
+    """Load the named units plus, transitively, the support units they `@needs`."""
+    out, seen, todo = [], set(), list(names)
+    while todo:
+        n = todo.pop(0)
+        if n in seen:
+            continue
+        seen.add(n)
+        u = Unit(os.path.join(VERIF, "kani", n + ".rs"))
+        out.append(u)
+        todo += u.needs
+    return out
 
 
 def sha256_file(p):
@@ -198,7 +212,7 @@ def parse_result_file(path):
 TOOL_LIMIT_PAT = re.compile(
     r"unwinding assertion|unsupported|dereference failure|pointer|misaligned|invalid integer address"
     r"|is not currently supported|recursion unwinding|memory leak|deallocat|free argument|uninitialized"
-    r"|Undefined Behavior|resume instruction|atomic|foreign function|concurrency|inline assembly",
+    r"|Undefined Behavior|resume instruction|atomic|foreign function|concurrency|inline assembly|\[TOOL\]",
     re.I,
 )
 
